@@ -807,6 +807,7 @@ func (lwc *lockWriteCloser) Close() error {
 		return nil
 	}
 	defer lwc.m.Unlock()
+	verifhook.Yield("tokenwriter.close")
 	if err := lwc.Flush(); err != nil {
 		lwc.err = err
 		return err
@@ -1021,6 +1022,7 @@ func send(ctx context.Context, s *Session, r xml.TokenReader, start *xml.StartEl
 	if err != nil {
 		return err
 	}
+	verifhook.Yield("send.flush")
 	return s.out.e.Flush()
 }
 
